@@ -66,6 +66,29 @@ CLAIMED = {
         technique="composition of shape-extracted decision tables over a finite role space (exhaustive) + structural def-use checks (ast)",
         ref="4/C11",
     ),
+    "C13": dict(
+        level="other",
+        text="Path rule on ACSE._negotiate_as_acceptor: a typestate shows that a decided rejection triple is never "
+        "withdrawn and always ends in send_reject/EVT_REJECTED/kill/return, never in send_accept or is_established = True; "
+        "every policy test is matched with its documented operands (stripped calling list only when non-empty, stripped own "
+        "title only when enabled, identity verdict) and triple (PS3.8 Table 9-21 / docs); _check_user_identity's paths are "
+        "enumerated; handlers are reachable only through the established-association reactor (who-may-call).",
+        note="Trusted: CPython ast; PS3.8 Table 9-21 transcription in spec/ps3_8_fsm.json. Not decided: string comparison "
+        "semantics beyond strip() (case, embedded spaces are compared as-is, which is what the property states).",
+        technique="typestate + dominance over a hand-built CFG, path enumeration, who-may-call queries (ast)",
+        ref="4/C13",
+    ),
+    "C14": dict(
+        level="other",
+        text="The schedule quantifier is discharged by a counting argument (written out in the evidence) whose premises are "
+        "structural and checked: the limit test dominates acceptance; the counted population is the AE's live acceptor "
+        "association threads; the test runs inside the counted thread (who-may-call); the comparison is strict-greater against "
+        "the configured maximum; the rejection is (2, 3, 2).",
+        note="Trusted: CPython ast; threading.enumerate() lists every started, unfinished thread including the caller; an "
+        "established association's thread is alive (the reactor runs in it).",
+        technique="premise checking for a written counting argument: dominance, who-may-call and expression matching (ast)",
+        ref="4/C14",
+    ),
     "C15": dict(
         level="other",
         text="Structural decision of the fragmentation protocol: the PDV overhead is derived from the "
